@@ -403,6 +403,108 @@ class Fn:
             return ("proj", base, proj)
         return base
 
+    @staticmethod
+    def _read_locals(x, out=None):
+        """base locals of every place read in a rvalue / operand / argument list (JSON facts)"""
+        if out is None:
+            out = set()
+        if isinstance(x, dict):
+            for k_ in ("copy", "move", "place"):
+                v_ = x.get(k_)
+                if isinstance(v_, dict) and isinstance(v_.get("l"), int):
+                    out.add(v_["l"])
+                    for p_ in v_.get("p", []):
+                        if p_.get("k") == "index" and isinstance(p_.get("l"), int):
+                            out.add(p_["l"])
+            for k_, v_ in x.items():
+                if k_ not in ("copy", "move", "place", "const", "span", "fn_span", "ty"):
+                    Fn._read_locals(v_, out)
+        elif isinstance(x, list):
+            for v_ in x:
+                Fn._read_locals(v_, out)
+        return out
+
+    def forward_taint(self, seed):
+        """flow-insensitive forward data slice inside one body.  seed(place) -> bool marks the reads that start it (a place: {"l":.., "p":[..]}).
+        A statement taints its destination when it reads a seed place or a tainted local; a call taints its destination when an argument is tainted,
+        and — `v.push(x)`, `set.extend(xs)` — the local behind a `&mut` argument when another argument is.
+        -> (tainted locals, [(Call, [indices of tainted arguments])])"""
+        def seeded(x):
+            if isinstance(x, dict):
+                for k_ in ("copy", "move", "place"):
+                    v_ = x.get(k_)
+                    if isinstance(v_, dict) and isinstance(v_.get("l"), int) and seed(v_):
+                        return True
+                return any(seeded(v_) for k_, v_ in x.items() if k_ not in ("copy", "move", "place", "const", "span", "fn_span", "ty"))
+            if isinstance(x, list):
+                return any(seeded(v_) for v_ in x)
+            return False
+        T = set()
+        mut_behind = {}         # local holding `&mut L` -> L
+        for b in self.reach_blocks:
+            for st in self.blocks[b]["stmts"]:
+                rv = st.get("rv") or {}
+                if st.get("lhs") and not st["lhs"].get("p") and rv.get("k") == "ref" and rv.get("mut"):
+                    mut_behind[st["lhs"]["l"]] = rv["place"]["l"]
+        changed = True
+        rounds = 0
+        while changed and rounds < 50:
+            changed = False
+            rounds += 1
+            for b in sorted(self.reach_blocks):
+                blk = self.blocks[b]
+                for st in blk["stmts"]:
+                    lhs, rv = st.get("lhs"), st.get("rv")
+                    if lhs is None or rv is None:
+                        continue
+                    if lhs["l"] in T and not any(p_.get("k") == "deref" for p_ in lhs.get("p", [])):
+                        continue
+                    if seeded(rv) or (self._read_locals(rv) & T):
+                        if lhs["l"] not in T:
+                            T.add(lhs["l"])
+                            changed = True
+                        if any(p_.get("k") == "deref" for p_ in lhs.get("p", [])):
+                            # a store through a pointer (`vec![x]` writes the array into a fresh box through a raw pointer): what the pointer was
+                            # made from holds the value too
+                            L, hops = lhs["l"], 0
+                            while hops < 6:
+                                ds = self.defs.get(L, [])
+                                if len(ds) != 1 or ds[0][0] != "stmt" or ds[0][3].get("k") not in ("use", "cast", "ref", "copy_for_deref", "addr_of"):
+                                    break
+                                src = ds[0][3].get("op") or {"copy": ds[0][3].get("place")}
+                                q = op_place(src) if isinstance(src, dict) and ("copy" in src or "move" in src) else None
+                                if q is None:
+                                    break
+                                L = q["l"]
+                                hops += 1
+                                if L not in T:
+                                    T.add(L)
+                                    changed = True
+                t = blk["term"]
+                if t["k"] == "call":
+                    hot = [i for i, a in enumerate(t["args"]) if seeded(a) or (self._read_locals(a) & T)]
+                    if hot:
+                        d = t["dest"]["l"]
+                        if d not in T:
+                            T.add(d)
+                            changed = True
+                        for i, a in enumerate(t["args"]):
+                            pl = op_place(a)
+                            if i not in hot and pl is not None and not pl.get("p") and pl["l"] in mut_behind:
+                                L = mut_behind[pl["l"]]
+                                while L in mut_behind:      # reborrow chains
+                                    L = mut_behind[L]
+                                if L not in T:
+                                    T.add(L)
+                                    changed = True
+        hits = []
+        for c in self.calls:
+            if c.bb in self.reach_blocks:
+                hot = [i for i, a in enumerate(c.args) if seeded(a) or (self._read_locals(a) & T)]
+                if hot:
+                    hits.append((c, hot))
+        return T, hits
+
     def feeding_calls(self, op, depth=5):
         """short names of every call in the backward data slice of a value: through copies, references, casts, aggregates (arrays, tuples, structs) and
         the arguments of the calls met on the way — `f(&[a.as_str(), b.as_str()])` is fed by whatever produced a and b, like `f(&a, &b)` is"""
